@@ -538,6 +538,8 @@ class Ev:
             return BoundLib(f"dict.{name}", v)
         if v is None:
             raise RaisedV("AttributeError", f"{mod.rel}:{getattr(node, 'lineno', 0)}" if mod else "")
+        if is_sym(v) and v.is_number and name == "is_integer":
+            return BoundLib("float.is_integer", v)
         raise self.err(f"unresolved attribute .{name} on {type(v).__name__} {v!r}", node, mod)
 
     def obj_attr(self, obj: Obj, name, node=None, mod=None):
@@ -2385,7 +2387,20 @@ def lib_isinstance(ev, a, k, n, mod):
     if isinstance(t, ClsV):
         return isinstance(v, Obj) and not v.cls.startswith("ext:") and t.ref in ev.model.mro(v.cls)
     if tn in ("builtins.int", "builtins.float"):
+        if isinstance(v, bool):
+            return tn == "builtins.int"         # bool is a subclass of int
         return is_sym(v) and bool(v.is_number)
+    if tn == "builtins.bool":
+        return isinstance(v, bool)
+    if tn in ("numbers.Number", "numbers.Complex", "numbers.Real", "numbers.Rational", "numbers.Integral"):
+        # the numeric tower: bool < int < Integral < Rational < Real < Complex < Number; float is Real
+        if isinstance(v, bool):
+            return True
+        if is_sym(v) and v.is_number:
+            return bool(v.is_Integer) if tn in ("numbers.Integral", "numbers.Rational") else True
+        return False
+    if isinstance(t, Tup):
+        return any(lib_isinstance(ev, [v, tt], k, n, mod) for tt in t.items)
     if tn == "builtins.list":
         return isinstance(v, Tup) and v.kind == "list"
     raise ev.err("isinstance() on an unsupported type", n, mod)
@@ -3387,6 +3402,7 @@ def lib_round(ev, a, k, n, mod):
 
 lib_round.kw = {"ndigits"}
 LIB.setdefault("round", lib_round)
+LIB["float.is_integer"] = lambda ev, a, k, n, mod: bool(as_sym(a[0]).is_Integer or (as_sym(a[0]).is_Rational and as_sym(a[0]).q == 1))
 LIB.update({"functools.reduce": lib_reduce, "operator.add": lib_operator(ast.Add), "operator.sub": lib_operator(ast.Sub), "operator.mul": lib_operator(ast.Mult),
             "operator.truediv": lib_operator(ast.Div), "operator.pow": lib_operator(ast.Pow), "operator.floordiv": lib_operator(ast.FloorDiv),
             "operator.mod": lib_operator(ast.Mod), "operator.matmul": lib_operator(ast.MatMult), "operator.lshift": lib_operator(ast.LShift),
